@@ -831,6 +831,15 @@ class Einsum(EvalableModel):
             for t in evaluated.tensor_accesses:
                 if t.name in persistent_set:
                     t.persistent = True
+            # The named set Persistent was built before persistent_tensors was applied.
+            for rename in evaluated.renames:
+                if rename.name == "Persistent":
+                    rename.source = InvertibleSet(
+                        instance=oset(
+                            t.name for t in evaluated.tensor_accesses if t.persistent
+                        ),
+                        **kwargs_tensors,
+                    )
 
         return evaluated, symbol_table
 
